@@ -403,6 +403,10 @@ class IndexedSet(MutableSet):
         if step is not None and step < 0:
             step = -step
             iterable = reversed(self)
+        if step is not None:
+            # islice only takes machine-word steps; any step of at least
+            # len(self) selects just the first item, like a list slice
+            step = min(step, max(len(self), 1))
         return islice(iterable, start, stop, step)
 
     # list operations
